@@ -161,7 +161,7 @@ def run(tier: str, seed: int, t0: float) -> int:
                        ("add_node_mark:ok", 20), ("remove_node_mark:ok", 20), ("set_node_attribute:ok", 20), ("set_node_markup:ok", 50),
                        ("set_block_type:changed", 50)):
         if stats.counts.get(key, 0) < least:
-            raise core.MachineryError(f"vacuity gate: {key}={stats.counts.get(key, 0)} < {least}")
+            core.vacuity(out, f"vacuity gate: {key}={stats.counts.get(key, 0)} < {least}")
     return core.finish("C13", tier, seed, stats, out, t0,
                        rule="(document, range, mark) for add_mark / remove_mark (mark, type, all); (document, node position) for node marks, attributes, "
                             "markup; (document, range, textblock type) for set_block_type; documents: all TLC-generated documents with mixed mark sets "
